@@ -83,6 +83,7 @@ def build(entry, ch, acc, max_faults=4, shapes=None, flavor='plain', avoid='~*:^
                 kw['p_loop'] = 0.0
     if doc is None:
         return None
+    doc.avoid = avoid       # characters that are delimiters somewhere in the case: no injected value may hold them
     if acc is not None:
         c02.strip_known(doc, acc)
     nf = ch.choice([0, 1, 1, 2, 3, max_faults])
